@@ -420,6 +420,17 @@ def child_inprocess(plugin: str, lists: Dict[str, List[str]], order: List[str]) 
     specs: Dict[str, Any] = {}
     for key in order:
         d = gen.scratch(f"lspverif-c16-inproc-{plugin}-")
+        if key.startswith("~"):
+            # "~other=k": another plugin generates from the model object loaded for k (its output is not looked at here)
+            other, k2 = key[1:].split("=", 1)
+            try:
+                if k2 in specs:
+                    importlib.import_module(f"generator.plugins.{other}").generate(specs[k2], d, gen.prepare_test_dir(other, d))
+            except Exception:
+                pass
+            finally:
+                shutil.rmtree(d, ignore_errors=True)
+            continue
         again = key.startswith("=")   # "=k": generate once more from the model object loaded for the previous run of k
         key = key.lstrip("=")
         try:
@@ -508,18 +519,24 @@ def _work(args) -> dict:
             from .c19 import in_child
             order = ["small_a", "=small_a", "small_a_open", "small_a", "small_a_base", "small_a", "small_a_doc", "small_mx", "small_b", "=small_b", "small_a_base",
                      "small_mx", "=small_mx", "=small_a"]
-            res = in_child(child_inprocess, plugin, pool.lists, order, timeout=900)
+            # one model object handed to several plugins in turn (a build script that loads once and generates every package)
+            for other in [p_ for p_ in PLUGINS if p_ != plugin]:
+                order += [f"~{other}=small_b", "=small_b"]
+            res = in_child(child_inprocess, plugin, pool.lists, order, timeout=1500)
             if res is not None:
                 mref = M()
                 try:
+                    positions = [n_ for n_, k_ in enumerate(order) if not k_.startswith("~")]   # (the "~" steps record nothing)
                     for i, (key, dig) in enumerate(res["runs"]):
                         _, ref = mref.reference(key)
                         stats["inprocess_runs"] += 1
+                        upto = order[: positions[i] + 1]
                         if dig != ref and "<plugin failed>" not in ref:
                             differ = sorted(k for k in set(dig) | set(ref) if dig.get(k) != ref.get(k))
-                            ctx.finding(("inprocess-output-differs", plugin, f"run {i + 1} of {len(order)}"),
-                                        f"generating {key} as run {i + 1} of the in-process history {order[: i + 1]} differs from a fresh process: {differ[:3]}",
-                                        {"plugin": plugin, "history": order[: i + 1]})
+                            after_other = upto[-2][1:].split("=")[0] if len(upto) > 1 and upto[-2].startswith("~") else None
+                            ctx.finding(("inprocess-output-differs", plugin, f"after-plugin:{after_other}" if after_other else f"run {positions[i] + 1} of {len(order)}"),
+                                        f"generating {key} as step {positions[i] + 1} of the in-process history {upto} differs from a fresh process: {differ[:3]}",
+                                        {"plugin": plugin, "history": upto})
                 finally:
                     mref.teardown()
         run_state_machine_as_test(
